@@ -403,9 +403,15 @@ fn command_api(dep: &str) {
     let file = PathBuf::from(dep).join("src/redis/executor/mod.rs");
     println!("cargo:rerun-if-changed={}", file.display());
     let src = fs::read_to_string(&file).unwrap_or_else(|e| panic!("{}: {}", file.display(), e));
+    // a `pub fn` is an ENTRY POINT for C01 / C17 when it can change the keyspace or produce a reply:
+    // `&mut self`, or a `RespValue` in the signature, or no receiver at all (a constructor). A `&self`
+    // function that returns something else is an accessor: it is listed in the evidence, but a new one
+    // cannot reach the property and does not fail the check.
     let mut fns: Vec<String> = Vec::new();
+    let mut accessors: Vec<String> = Vec::new();
     let mut inside = false;
-    for line in src.lines() {
+    let lines: Vec<&str> = src.lines().collect();
+    for (li, line) in lines.iter().enumerate() {
         if line.starts_with("impl CommandExecutor") {
             inside = true;
             continue;
@@ -418,7 +424,20 @@ fn command_api(dep: &str) {
             let t = line.trim_start();
             if line.starts_with("    pub fn ") {
                 let name: String = t["pub fn ".len()..].chars().take_while(|c| c.is_alphanumeric() || *c == '_').collect();
-                fns.push(name);
+                let mut sig = String::new();
+                for l in &lines[li..(li + 12).min(lines.len())] {
+                    sig.push_str(l);
+                    sig.push(' ');
+                    if l.contains('{') {
+                        break;
+                    }
+                }
+                let entry = sig.contains("&mut self") || sig.contains("RespValue") || !sig.contains("self");
+                if entry {
+                    fns.push(name);
+                } else {
+                    accessors.push(name);
+                }
             }
         }
     }
@@ -427,11 +446,12 @@ fn command_api(dep: &str) {
     }
     let list = |v: &Vec<String>| v.iter().map(|s| format!("{:?}", s)).collect::<Vec<_>>().join(", ");
     let out = format!(
-        "pub const COMMAND_VARIANTS: &[&str] = &[{}];\npub const READ_ONLY_VARIANTS: &[&str] = &[{}];\npub const READ_ONLY_IS_PLAIN_LIST: bool = {};\npub const EXECUTOR_PUB_FNS: &[&str] = &[{}];\n",
+        "pub const COMMAND_VARIANTS: &[&str] = &[{}];\npub const READ_ONLY_VARIANTS: &[&str] = &[{}];\npub const READ_ONLY_IS_PLAIN_LIST: bool = {};\npub const EXECUTOR_PUB_FNS: &[&str] = &[{}];\npub const EXECUTOR_ACCESSOR_FNS: &[&str] = &[{}];\n",
         list(&variants),
         list(&ro),
         plain,
-        list(&fns)
+        list(&fns),
+        list(&accessors)
     );
     let dest = PathBuf::from(std::env::var("OUT_DIR").unwrap()).join("command_api_gen.rs");
     fs::write(dest, out).unwrap();
